@@ -99,6 +99,9 @@ class se3_inverse(FnContract):
     def post(self, c, a, res):
         yield Clause("formula", c.eq(res, spec.inv_se3(a.p)), role="aux",
                      note="[R t;0 1] -> [R^T -R^T t;0 1]; the group inverse on SE(3) by lemma G2")
+        se3 = c.And(*spec.is_SE3_exact(a.p, c.eq))
+        yield Clause("P*inv(P)==I_on_SE3", c.Implies(se3, c.eq(spec.mul4(a.p, res), spec.eye(4))), role="prop")
+        yield Clause("inv(P)*P==I_on_SE3", c.Implies(se3, c.eq(spec.mul4(res, a.p), spec.eye(4))), role="prop")
 
 
 @register
@@ -113,7 +116,10 @@ class relative_se3(FnContract):
         return c.matrix("rel", 4, 4)
 
     def post(self, c, a, res):
-        yield Clause("is_inverse_times", c.eq(res, spec.mul4(spec.inv_se3(a.p1), a.p2)), role="prop",
+        yield Clause("is_inverse_times", c.eq(res, spec.mul4(spec.inv_se3(a.p1), a.p2)), role="aux",
+                     note="rel(A,B) = A^-1 * B with A^-1 = [R^T -R^T t; 0 1]")
+        se3 = c.And(*spec.is_SE3_exact(a.p1, c.eq))
+        yield Clause("A*rel(A,B)==B_on_SE3", c.Implies(se3, c.eq(spec.mul4(a.p1, res), a.p2)), role="prop",
                      note="rel(A,B) = A^-1 * B")
 
 
